@@ -325,12 +325,14 @@ class Program:
             L.append(self.header.rstrip("\n"))
         for name, gens, fields, derives in self.structs:
             if derives:
-                L.append("#[derive(" + ", ".join(derives) + ")]")
+                for grp in " ".join(derives).split("|"):            # "|" separates stacked attributes
+                    L.append("#[derive(" + ", ".join(grp.split()) + ")]")
             g = "[" + ", ".join(gens) + "]" if gens else ""
             L.append(f"struct {name}{g} {{ " + ", ".join(f"{f}: {tystr(t)}" for f, t in fields) + " }")
         for name, gens, variants, derives in self.enums:
             if derives:
-                L.append("#[derive(" + ", ".join(derives) + ")]")
+                for grp in " ".join(derives).split("|"):
+                    L.append("#[derive(" + ", ".join(grp.split()) + ")]")
             g = "[" + ", ".join(gens) + "]" if gens else ""
             vs = ", ".join(v + ("(" + ", ".join(tystr(t) for t in ts) + ")" if ts else "") for v, ts in variants)
             L.append(f"enum {name}{g} {{ {vs} }}")
